@@ -7,9 +7,11 @@ part "iter"  : ImageIterator histories (next / seek / close / drop / image size 
 part "fault" : a scenario (format / str / draw / animated draw / iteration / n_frames) run
                once without fault (counting the library's calls to PIL convert / resize /
                alpha_composite / save / tobytes) and then once per call index k with a
-               failure injected at the k-th call; observed: /proc/self/fd count against its
-               baseline, Image.open / Image.close pairing (wrapped), the caller's PIL image
-               still usable, image.size and image.tell() unchanged.
+               failure injected at the k-th call; observed: Image.open / Image.close pairing
+               (both wrapped; every opened image is kept referenced, so that nothing is closed
+               by the garbage collector), /proc/self/fd count against its baseline, the
+               caller's PIL image still usable, image.size and image.tell() unchanged.
+               "draw_bad": draw() with an invalid repeat / cached / style argument.
 part "url"   : images built by from_url from a local http.server thread on 127.0.0.1
                (200 image, 404, non-image body, bad constructor argument); listing of the
                library's temp dir before / while open / after close / after failure.
@@ -27,7 +29,6 @@ import tempfile
 import threading
 import time
 import warnings
-import weakref
 
 warnings.simplefilter("ignore")
 os.environ["NO_PROXY"] = "127.0.0.1,localhost"
@@ -157,6 +158,39 @@ class FailFrame:
             self.cls._render_image = self.real
 
 
+class OpenTracker:
+    """Records every image returned by Image.open (strong references: no help from the
+    garbage collector) and every image on which Image.close() is called."""
+
+    def __init__(self):
+        self.opened, self.closed = [], set()
+
+    def __enter__(self):
+        tr = self
+        real_close = self.real_close = Image.Image.close
+
+        def opener(*a, **kw):
+            im = REAL_OPEN(*a, **kw)
+            tr.opened.append(im)
+            return im
+
+        def close(self_):
+            tr.closed.add(id(self_))
+            return real_close(self_)
+
+        Image.open = opener
+        common.Image.open = opener
+        Image.Image.close = close
+        return self
+
+    def __exit__(self, *a):
+        Image.open = REAL_OPEN
+        Image.Image.close = self.real_close
+
+    def unclosed(self):
+        return sum(1 for im in self.opened if id(im) not in self.closed)
+
+
 # ----------------------------------------------------------------- part: iter
 
 
@@ -198,6 +232,8 @@ def run_iter(case, idx):
         if case.get("pos0"):
             image.seek(case["pos0"] % N)
         size_setting = image.size
+        tracker = OpenTracker()
+        tracker.__enter__()
         it = ImageIterator(image, case["repeat"], case["spec"], case["cached"])
         res["cache_on"] = bool(it._cached)
         rows = []
@@ -249,7 +285,10 @@ def run_iter(case, idx):
             if it is not None:
                 last_ln = it.loop_no
             ln = last_ln  # after a drop: the last value seen (the object is gone)
-            rows.append([code, y, image.tell(), -99 if ln is None else ln, int(it is not None)])
+            rows.append([code, y, image.tell(), -99 if ln is None else ln, tracker.unclosed()])
+        tracker.__exit__()
+        res["opened"] = len(tracker.opened)
+        tracker.opened.clear()
         res["rows"] = rows
         res["size_kept"] = image.size == size_setting
         res["pil_tell"] = keep.tell() if keep is not None else -1
@@ -277,12 +316,12 @@ class Observer:
     """Counts the library's outermost calls to the PIL methods of FAULT_METHODS, raises at
     the k-th one, and records every image returned by Image.open during the action."""
 
-    def __init__(self, k, exc, strong):
-        self.k, self.exc, self.strong = k, exc, strong
+    def __init__(self, k, exc):
+        self.k, self.exc = k, exc
         self.calls = 0
         self.depth = 0
-        self.opened = []  # strong refs (strict mode) or weak refs
-        self.closed_calls = 0
+        self.opened = []  # strong references: nothing is closed by the garbage collector
+        self.closed = set()
         self.hit = None
 
     def __enter__(self):
@@ -312,26 +351,29 @@ class Observer:
 
         def opener(*a, **kw):
             im = REAL_OPEN(*a, **kw)
-            obs.opened.append(im if obs.strong else weakref.ref(im))
+            obs.opened.append(im)
             return im
+
+        real_close = self.real_close = Image.Image.close
+
+        def close(self_):
+            obs.closed.add(id(self_))
+            return real_close(self_)
 
         Image.open = opener
         common.Image.open = opener
+        Image.Image.close = close
         return self
 
     def __exit__(self, *a):
         for m in FAULT_METHODS:
             setattr(Image.Image, m, REAL[m])
         Image.open = REAL_OPEN
+        Image.Image.close = self.real_close
 
     def not_explicitly_closed(self):
-        """strict mode: library-opened file images whose descriptor is still open"""
-        cnt = 0
-        for im in self.opened:
-            fp = getattr(im, "fp", None)
-            if fp is not None and not getattr(fp, "closed", True):
-                cnt += 1
-        return cnt
+        """images opened by the library on which Image.close() has not been called"""
+        return sum(1 for im in self.opened if id(im) not in self.closed)
 
 
 def do_action(case, image):
@@ -347,6 +389,10 @@ def do_action(case, image):
             image.draw(animate=False)
         elif a == "draw_anim":
             image.draw(repeat=case.get("repeat", 1), cached=case.get("cached", False), **case.get("style_args", {}))
+        elif a == "draw_bad":
+            # the argument is rejected after draw() has opened the image
+            image.draw(**{"repeat0": {"repeat": 0}, "cached0": {"cached": 0}, "style": {"no_such_style_arg": 1},
+                          "cachedstr": {"cached": "x"}, "repeatstr": {"repeat": "x"}}[case["bad"]])
         elif a == "n_frames":
             image._n_frames = None
             image.n_frames
@@ -366,6 +412,7 @@ def do_action(case, image):
                 if case.get("end", "close") != "drop":
                     it.close()
                 del it
+                gc.collect()  # iterator <-> generator is a reference cycle: __del__ runs here
     finally:
         sys.stdout = REAL_STDOUT
 
@@ -380,7 +427,7 @@ def own_fd(keep):
         return 0
 
 
-def one_fault_run(case, idx, k, exc, strong):
+def one_fault_run(case, idx, k, exc):
     cls = setup_style(case["style"], case.get("term"))
     path = source_path(case["src"], idx)
     gc.collect()
@@ -392,7 +439,7 @@ def one_fault_run(case, idx, k, exc, strong):
     fd1 = fd_count() - own_fd(keep)
     out = {"k": -1 if k is None else k}
     raised = ""
-    with Observer(k, exc, strong) as obs:
+    with Observer(k, exc) as obs:
         try:
             do_action(case, image)
         except BaseException as e:  # noqa: BLE001
@@ -401,11 +448,12 @@ def one_fault_run(case, idx, k, exc, strong):
         out["calls"] = obs.calls
         out["hit"] = obs.hit or ""
         out["opened"] = len(obs.opened)
-        out["unclosed_strict"] = obs.not_explicitly_closed() if strong else -1
+        out["unclosed"] = obs.not_explicitly_closed()
+        # descriptors held by library-opened images, every one of them still referenced
+        out["fd_after_action"] = fd_count() - own_fd(keep) - fd1
     obs.opened.clear()
     gc.collect()
     out["raised"] = raised
-    out["fd_after_action"] = fd_count() - own_fd(keep) - fd1   # library-opened descriptors still open
     out["size_kept"] = image.size == size0
     out["tell_kept"] = image.tell() == tell0
     alive = True
@@ -431,17 +479,14 @@ def one_fault_run(case, idx, k, exc, strong):
 def run_fault(case, idx):
     tests.set_cell_size(tuple(case.get("cell", (10, 20))))
     # warm up (lazy imports, plugin initialisation) so that the baseline is stable
-    one_fault_run(case, idx, None, RuntimeError, False)
-    base = one_fault_run(case, idx, None, RuntimeError, True)
-    weak = one_fault_run(case, idx, None, RuntimeError, False)
-    base["fd_after_action_weak"] = weak["fd_after_action"]
-    base["fd_end_weak"] = weak["fd_end"]
+    one_fault_run(case, idx, None, RuntimeError)
+    base = one_fault_run(case, idx, None, RuntimeError)
     runs = []
     total = base["calls"]
     ks = range(total) if case.get("max_k") is None else range(min(total, case["max_k"]))
     for k in ks:
         exc = KeyboardInterrupt if case.get("kbd") and k % 2 else RuntimeError
-        runs.append(one_fault_run(case, idx, k, exc, False))
+        runs.append(one_fault_run(case, idx, k, exc))
     return {"base": base, "runs": runs}
 
 
